@@ -196,6 +196,14 @@ func Goroutines(on bool) {}
 // synchronisation points (0: threads run until they block). Natively a no-op.
 func SchedBound(k int) {}
 
+// AsmMulHiUF(name) makes the engine's amd64 interpreter model MULQ with an exact low word and
+// the high word as the uninterpreted function name(operand, AX) under bounds that hold for the
+// real multiplication (the same abstraction a harness applies to the Go side). Natively a no-op.
+func AsmMulHiUF(name string) {}
+
+// AsmMulLoUF(name): additionally the low product words of MULQ/IMULQ are name(operand, other).
+func AsmMulLoUF(name string) {}
+
 // Yield lets every other goroutine run until it blocks or finishes (engine); natively it sleeps
 // briefly so that started goroutines get to their blocking points.
 func Yield() { time.Sleep(20 * time.Millisecond) }
